@@ -104,6 +104,7 @@ enum POp {
     Clear(usize),
     Get(usize, usize, bool),
     Iter(usize, Vec<EndTok>),
+    IterC(usize, Vec<EndTok>, Vec<EndTok>),
     Drain(usize, Rng, bool, Vec<(EndTok, Sink)>, FinTok),
     Splice(usize, Rng, bool, Vec<Src>, i64, Vec<(EndTok, Sink)>, FinTok),
     Clone(usize),
@@ -135,6 +136,7 @@ fn parse_op(toks: &[&str]) -> Option<POp> {
         ["get", v, i] => POp::Get(num(v)?, num(i)?, false),
         ["at", v, i] => POp::Get(num(v)?, num(i)?, true),
         ["iter", v, cs] => POp::Iter(num(v)?, parse_ends(cs)?),
+        ["iterc", v, pre, post] => POp::IterC(num(v)?, parse_ends(pre)?, parse_ends(post)?),
         ["drain", v, lo, hi, path, eats, fin] =>
             POp::Drain(num(v)?, (parse_bnd(lo)?, parse_bnd(hi)?), *path == "t", parse_eats(eats)?, parse_fin(fin)?),
         ["splice", v, lo, hi, path, repl, claim, eats, fin] =>
@@ -187,6 +189,7 @@ fn exec<F: Family>(env: &mut Env<F>, op: &POp) {
         POp::Clear(v) => env.with_vec(*v, |d| d.clear()),
         POp::Get(v, i, at) => env.with_vec(*v, |d| d.get(*i, *at)),
         POp::Iter(v, cs) => env.with_vec(*v, |d| d.iter(cs)),
+        POp::IterC(v, pre, post) => env.with_vec(*v, |d| d.iter_clone(pre, post)),
         POp::Drain(v, r, typed, eats, fin) => { let e = &*env; e.with_vec(*v, |d| d.drain(*r, *typed, eats, *fin, e)) }
         POp::Splice(v, r, typed, repl, claim, eats, fin) => {
             let e = &*env;
